@@ -593,6 +593,23 @@ pub fn install_schedule(schedule: Vec<u8>) -> std::rc::Rc<std::cell::Cell<usize>
 
 pub fn clear_schedule() {
     edp_client::verif::set_sched_point(None);
+    edp_client::verif::set_hold_point(None);
+}
+
+/// Holding points (a task keeps yielding there for as long as the returned flag is set; bounded by a budget of yields).
+pub fn install_hold() -> std::rc::Rc<std::cell::Cell<bool>> {
+    let flag = std::rc::Rc::new(std::cell::Cell::new(false));
+    let budget = std::cell::Cell::new(2_000_000u32);
+    let f2 = flag.clone();
+    edp_client::verif::set_hold_point(Some(std::rc::Rc::new(move |_tag| {
+        if f2.get() && budget.get() > 0 {
+            budget.set(budget.get() - 1);
+            true
+        } else {
+            false
+        }
+    })));
+    flag
 }
 
 /// Parse one distribution frame in pass-through form: `112 131 Control [131 Payload]`.
